@@ -489,6 +489,9 @@ func (r *runner) crashReplay(v *violation, budget int) {
 		v.Confirm = fmt.Sprintf("crash did not reproduce from recovered tape (got %q)", cls)
 		return
 	}
+	if strings.Contains(v.Class, "hang") {
+		budget = 0 // every candidate of a hanging run costs hangSecs: keep the recovered tape as it is
+	}
 	best, tried := simrt.Shrink(tape, budget, func(c []uint64) bool {
 		cl, _ := r.runTape(c)
 		return cl == v.Class
